@@ -27,20 +27,20 @@ var variants = map[string]core.Variant{
 }
 
 type runOutput struct {
-	Property    string              `json:"property"`
-	Variant     string              `json:"variant"`
-	Repo        string              `json:"repo"`
-	Obligations []*core.Obligation  `json:"obligations"`
-	Violations  []*core.Obligation  `json:"violations"`
-	Known       []*core.Obligation  `json:"known"`
-	Counts      map[string]int      `json:"counts"`
+	Property    string                    `json:"property"`
+	Variant     string                    `json:"variant"`
+	Repo        string                    `json:"repo"`
+	Obligations []*core.Obligation        `json:"obligations"`
+	Violations  []*core.Obligation        `json:"violations"`
+	Known       []*core.Obligation        `json:"known"`
+	Counts      map[string]int            `json:"counts"`
 	PerRule     map[string]map[string]int `json:"per_rule"`
-	Stats       map[string]int      `json:"stats"`
-	Packages    int                 `json:"packages"`
-	Files       int                 `json:"files"`
-	Notes       []string            `json:"notes"`
-	Fatal       string              `json:"fatal,omitempty"`
-	WallS       float64             `json:"wall_s"`
+	Stats       map[string]int            `json:"stats"`
+	Packages    int                       `json:"packages"`
+	Files       int                       `json:"files"`
+	Notes       []string                  `json:"notes"`
+	Fatal       string                    `json:"fatal,omitempty"`
+	WallS       float64                   `json:"wall_s"`
 }
 
 func analyse(prop, repo, verifRoot string, v core.Variant) (out *runOutput) {
@@ -139,10 +139,10 @@ func main() {
 }
 
 type variantSummary struct {
-	Variant     string `json:"variant"`
-	Obligations int    `json:"obligations"`
-	Violations  int    `json:"violations"`
-	Fatal       string `json:"fatal,omitempty"`
+	Variant     string  `json:"variant"`
+	Obligations int     `json:"obligations"`
+	Violations  int     `json:"violations"`
+	Fatal       string  `json:"fatal,omitempty"`
 	WallS       float64 `json:"wall_s"`
 }
 
@@ -419,24 +419,24 @@ func finish(out *runOutput, tr *thoroughResult, prop, tier, outDir string, seed 
 		explanation = "no rule set"
 	}
 	cov := map[string]interface{}{
-		"explanation":         explanation,
-		"not_decided":         notDecided,
-		"obligations":         nOb,
-		"discharged":          nDis,
-		"argued_only":         out.Counts[core.Argued],
+		"explanation":           explanation,
+		"not_decided":           notDecided,
+		"obligations":           nOb,
+		"discharged":            nDis,
+		"argued_only":           out.Counts[core.Argued],
 		"violated_or_undecided": out.Counts[core.Violated] + out.Counts[core.Undecided],
-		"known_findings":      len(out.Known),
-		"per_rule":            out.PerRule,
-		"packages_analysed":   out.Packages,
-		"files_analysed":      out.Files,
-		"program_stats":       out.Stats,
-		"variants":            []string{out.Variant},
-		"samples":             samples,
-		"trusted_base":        trusted,
-		"notes":               out.Notes,
-		"checker_cmd":         fmt.Sprintf("omnilint -prop %s -tier %s -repo %s", prop, tier, out.Repo),
-		"exhaustive":          true,
-		"rule":                "every construct of the kinds named by the rules, enumerated from the type-checked program / SSA of the current working tree; an obligation is one rule instance at one construct",
+		"known_findings":        len(out.Known),
+		"per_rule":              out.PerRule,
+		"packages_analysed":     out.Packages,
+		"files_analysed":        out.Files,
+		"program_stats":         out.Stats,
+		"variants":              []string{out.Variant},
+		"samples":               samples,
+		"trusted_base":          trusted,
+		"notes":                 out.Notes,
+		"checker_cmd":           fmt.Sprintf("omnilint -prop %s -tier %s -repo %s", prop, tier, out.Repo),
+		"exhaustive":            true,
+		"rule":                  "every construct of the kinds named by the rules, enumerated from the type-checked program / SSA of the current working tree; an obligation is one rule instance at one construct",
 	}
 	if tr != nil {
 		vs := []string{out.Variant}
